@@ -625,11 +625,34 @@ func ruleRunDeliversAll(c *Ctx, run *ssa.Function, outputsF *types.Var) {
 			header = nx.Block()
 		}
 	}
-	var send *ssa.Send
+	var send ssa.Instruction
 	for _, b := range run.Blocks {
 		for _, in := range b.Instrs {
 			if s, ok := in.(*ssa.Send); ok {
 				send = s
+			}
+			// the loop lives in a visitor that calls the function it was handed for every output: that function must send
+			// on the output it is given, on every path
+			if call, ok := in.(*ssa.Call); ok && send == nil {
+				if ts, ok := paramFuncTargets(c.P, call.Call.Value); ok && len(ts) > 0 {
+					allSend := true
+					for _, t := range ts {
+						sends := false
+						for _, tb := range t.Blocks {
+							for _, ti := range tb.Instrs {
+								if sd, ok := ti.(*ssa.Send); ok && len(t.Params) > 0 && sd.Chan == ssa.Value(t.Params[0]) && dominatesAllReturns(tb, t) {
+									sends = true
+								}
+							}
+						}
+						if !sends {
+							allSend = false
+						}
+					}
+					if allSend {
+						send = call
+					}
+				}
 			}
 		}
 	}
@@ -938,6 +961,38 @@ func ruleInsertUnderMiss(c *Ctx, spawn *ssa.Function, outputsF *types.Var) {
 						}
 						if lo <= hi {
 							all = false // this edge can reach the insert without a miss
+						}
+					}
+					okMiss = all
+				}
+			}
+			if !okMiss {
+				// the search result is carried in one variable that starts as a sentinel (-1): every way the variable gets a
+				// value either is the sentinel, which the conditions at the insert exclude, or assigns the candidate under
+				// its own miss
+				if phi, isPhi := mu.Key.(*ssa.Phi); isPhi {
+					init := bound{lo: math.MinInt64, hi: math.MaxInt64, hasLo: true, hasHi: true}
+					atB := boundsFrom(vw.GuardsAt(b), keyTerm, init)
+					all := len(phi.Edges) > 0
+					for i, e := range phi.Edges {
+						if e == ssa.Value(phi) {
+							continue
+						}
+						if k, isK := e.(*ssa.Const); isK && k.Value != nil {
+							n := k.Int64()
+							if atB.excluded[n] || atB.hasLo && n < atB.lo || atB.hasHi && n > atB.hi {
+								continue
+							}
+							all = false
+							continue
+						}
+						pred := phi.Block().Preds[i]
+						var ex []Atom
+						if ifi, isIf := pred.Instrs[len(pred.Instrs)-1].(*ssa.If); isIf && pred.Succs[0] != pred.Succs[1] {
+							ex = append(ex, Atom{Cond: vw.Term(ifi.Cond), Taken: pred.Succs[0] == phi.Block(), Instr: ifi})
+						}
+						if !missGuard(vw, pred, ex, vw.Term(e).String(), outputsF, 0) {
+							all = false
 						}
 					}
 					okMiss = all
